@@ -18,7 +18,7 @@ import tempfile
 import xml.etree.ElementTree as ET
 
 VERIF = os.path.dirname(os.path.dirname(os.path.abspath(__file__)))
-PROPS = ["C01", "C02", "C03", "C04", "C05", "C06", "C08", "C09", "C10", "C11", "C12", "C14", "C15", "C16", "C18", "C19", "C20"]
+PROPS = [c["property_id"] for c in json.load(open(os.path.join(VERIF, "MANIFEST.json")))["checks"]]
 
 
 def sh(cmd, cwd=None, env=None, timeout=1800):
